@@ -9,7 +9,7 @@ PID = "C07"
 RULE = (
     "case = ONE transfer call on fresh roomy labware: 1..10 (source, destination, volume) triples with repeats, "
     "presented as three lists / with a broadcast singleton on one argument / as 2-D arrays (column-major), wash "
-    "scheme in {1,2,3,4,flush,reuse}, partition_by in {auto,source,destination}, DiTi mode on/off, small max_volume so "
+    "scheme in {1,2,3,4,flush,reuse}, partition_by in {auto,source,destination}, DiTi mode on/off, auto_split on/off, small max_volume so "
     "that some volumes split, pass-through kwargs (liquid_class, tip as int/Tip/list, rack_id, rack_type, tube_id, "
     "forced_rack_type), plates and troughs (also source = destination labware), both devices; or a malformed call "
     "(incompatible lengths, a negative volume). Each valid case runs the call 4 times on fresh labware: as given, "
@@ -25,7 +25,7 @@ ASSUMPTIONS = [
 BUDGET = {"quick": (4, 300), "thorough": (16, 4000)}
 KNOWN_KINDS = {}
 STRATA = ["lists", "broadcast", "2d", "malformed"]
-REQUIRED_CLASSES = ["shape:lists", "shape:2d", "shape:broadcast-src", "shape:broadcast-dst", "shape:broadcast-vol", "split", "reordered-both", "malformed:negative", "malformed:length", "diti", "trough-source", "wash:flush", "wash:reuse"]
+REQUIRED_CLASSES = ["shape:lists", "shape:2d", "shape:broadcast-src", "shape:broadcast-dst", "shape:broadcast-vol", "split", "reordered-both", "malformed:negative", "malformed:length", "diti", "trough-source", "wash:flush", "wash:reuse", "auto_split:off", "malformed:auto_split=False", "malformed:auto_split=True"]
 
 WASHES = [1, 2, 3, 4, "flush", "reuse"]
 
@@ -103,6 +103,9 @@ def _case(draw, stratum):
         "neg_at": draw(st.integers(0, 9)),
         "bad_len": draw(st.integers(2, 6)),
         "label": draw(st.sampled_from([None, "", "my transfer"])),
+        # malformed calls must be refused whatever the large-volume handling is; valid calls without auto_split keep
+        # every volume within max_volume
+        "auto_split": draw(st.booleans()) if stratum == "malformed" else draw(st.sampled_from([True, True, True, False])),
     }
 
 
@@ -181,7 +184,10 @@ def _run(case, triples, pb, malformed=None):
     import robotools
 
     cls = robotools.EvoWorklist if case["device"] == "evo" else robotools.FluentWorklist
-    wl = cls(max_volume=case["M"], auto_split=True, diti_mode=case["diti"])
+    auto_split = case.get("auto_split", True)
+    wl = cls(max_volume=case["M"], auto_split=auto_split, diti_mode=case["diti"])
+    if not auto_split and not malformed:
+        triples = [[t[0], t[1], min(t[2], case["M"])] for t in triples]
     S = _mk(case["src"], "Source")
     D = S if case["same"] else _mk(case["dst"], "Dest")
     s, d, v = _args(case, triples)
@@ -278,7 +284,7 @@ def check_case(case) -> Obs:
         wl, S, D, exc = _run(case, triples, case["pb"], malformed=case["malformed"])
         obs.units = 1
         kind = "negative" if case["malformed"] == "negative" else "length"
-        obs.cls("malformed:" + kind)
+        obs.cls("malformed:" + kind, "malformed:auto_split=" + str(case.get("auto_split", True)))
         if exc is None:
             obs.bad("C07/malformed-accepted", f"transfer with {case['malformed']} arguments returned normally; records {list(wl)[:6]}")
         elif kind == "length" and any(r[:2] in ("A;", "D;") for r in wl):
@@ -286,6 +292,9 @@ def check_case(case) -> Obs:
         obs.nontrivial = True
         return obs
 
+    if not case.get("auto_split", True):
+        triples = [[t[0], t[1], min(t[2], case["M"])] for t in triples]
+        obs.cls("auto_split:off")
     wl, S, D, exc = _run(case, triples, case["pb"])
     obs.units = 1
     if exc is not None:
